@@ -152,7 +152,37 @@ def run_module(mod, ctx: Ctx):
                     diffs.append({"kind": "setup", "line": line, "model": out, "expected": exp})
             elif (not cmp(out, exp)) if cmp else (out != exp):
                 diffs.append({"kind": "correspondence", "line": line, "case": cj, "impl": exp[:3000], "model": out[:3000]})
+        if getattr(mod, "INVARIANTS", False):
+            run_invariants(ctx)
     return diffs
+
+
+def run_invariants(ctx: Ctx):
+    """evaluate the (proved-sound) decidable checkers of the engine theorems' hypotheses - OkStoreC, Chains (FuelOk), Acyclic -
+    on every intermediate store of the model's runs of this check's `infer` lines (lean/Driver/Inv.lean). Statistics only:
+    the first two are invariants by theorem, the third says to how many of the compared runs the witness theorems applied."""
+    exe = os.path.join(os.path.dirname(leanbuild.driver_path()), "tfv-inv")
+    if not os.path.exists(exe):
+        return
+    try:
+        outs = leanbuild.run_driver(ctx.lines, exe=exe)
+    except Exception as e:
+        ctx.stats["invariant_runs_error"] = str(e)[:200]
+        return
+    runs = stores = 0
+    bad = {"OkStoreC": 0, "Chains": 0, "Acyclic": 0}
+    for o in outs:
+        parts = o.split()
+        if len(parts) == 3 and parts[0] == "inv":
+            runs += 1
+            stores += int(parts[1])
+            for name, flag in zip(bad, parts[2]):
+                if flag != "T":
+                    bad[name] += 1
+    ctx.stats["invariant_runs"] = runs
+    ctx.stats["invariant_stores_checked"] = stores
+    for name, n in bad.items():
+        ctx.stats[f"invariant_runs_where_{name}_checker_false"] = n
 
 
 def main():
